@@ -751,7 +751,8 @@ def enumerate_plan(tier, stats, with_rename=False):
         fams.append(("df-reduced-s5", df_driver(DFConfig(size=5, depth=2, alphabet="reduced", kinds=["if", "for", "while"])), 0))
         fams.append(("op-b2", op_driver(), 2))
         fams.append(("lit-pairs", lp_driver(), 0))
-        fams.append(("df-reduced-s5-nestedloops", df_driver(DFConfig(size=5, depth=2, alphabet="reduced", kinds=["for", "while"],
+        # (size 5 with peripheral deviations was 2.1M programs: not a feasible thorough tier; size 4 + deviations is 166k)
+        fams.append(("df-reduced-s4-nestedloops", df_driver(DFConfig(size=4, depth=2, alphabet="reduced", kinds=["for", "while"],
                                                                         returns=["u", "v", "u,v"], nested_ranges=True,
                                                                         ranges_all=True, ivar_after=False)), 1))
     if with_rename:
@@ -760,7 +761,7 @@ def enumerate_plan(tier, stats, with_rename=False):
         # gives a well-typed model computing something else when the generated name shadows it (seeded C01e)
         quick = tier == "quick"
         fams.append(("df-rename", df_driver(DFConfig(
-            size=3 if quick else 4, depth=1, alphabet="alias" if quick else "reduced", kinds=["if", "for"],
+            size=3, depth=1, alphabet="alias" if quick else "reduced", kinds=["if", "for"],
             ivar_after=False, renames=[r for r in RENAMES if not quick or r[0] in RENAMES_QUICK],
             prologues=["vc", "none"] if quick else ["uc,vc", "vc", "none"],
             returns=["u,v", "v"] if quick else ["u,v", "v", "x,u"])), 0))
